@@ -604,6 +604,10 @@ class GeminiServerProtocol(asyncio.Protocol):
 
     def _process_titan_upload(self) -> None:
         """Process the Titan upload through the upload handler."""
+        # The upload is dispatched exactly once: bytes arriving after the
+        # declared size must not start it again
+        self.awaiting_titan_content = False
+
         if not self.upload_handler or not self.titan_request:
             self._send_error_response(
                 StatusCode.TEMPORARY_FAILURE, "Upload handler error"
